@@ -349,3 +349,5 @@ TEXT["C03"].update(
     level=TEXT["C03"]["level"] + " 'Never dropped' on the transport that has room (Verus, R9 slice run_tcp_reply): what is written to a TCP client is the reply encoded with a limit of at least 65535 octets (emission-point precondition of TcpStream::write).")
 TEXT["C01"].update(
     level=TEXT["C01"]["level"] + " The identity itself (Verus, unit dhcpgetters, real bodies): DhcpOptions::get_clientid is Some exactly when option 61 is in the table and returns its octets whatever their number; Dhcp::get_client_id == those octets, else chaddr (the contract client_id_of assumed by unit dhcphandlers).")
+TEXT["C13"].update(
+    level=TEXT["C13"]["level"] + " Which option each accessor reads (Verus, unit dhcpgetters, real bodies): get_serverid = option 54, get_address_request = 50, get_messagetype = 53, get_clientid = 61 -- the accessor contracts unit dhcphandlers assumes.")
